@@ -331,6 +331,16 @@ CrystalSpec gen_crystal_spec(Rng& r, const std::vector<std::string>& pool) {
   else if (k < 70) c.name = pick_builtin_name(r);
   else c.name = gen_name(r, 20);
   if (r.chance(1, 60)) c.name = maybe_long(r, maybe_long(r, c.name));
+  if (!pool.empty() && r.chance(1, 12)) {
+    // families of names that agree in a long prefix (or where one is a prefix of the other): a bounded or
+    // otherwise weakened comparison in lookup / duplicate detection only shows on such pairs
+    static const int cut[] = {8, 15, 16, 19, 20, 21, 31, 32, 33};
+    std::string base = pool[r.below(pool.size())] + "_sample_of_a_long_crystal_name_";
+    base.resize((size_t)cut[r.below(9)], '_');
+    int v = r.range(0, 3);
+    c.name = v == 0 ? base : base + (char)('0' + r.range(0, 3)) + (v == 2 ? "b" : "");
+    if (r.chance(1, 4)) for (auto& ch : c.name) if (ch >= 'a' && ch <= 'z' && r.chance(1, 3)) ch = (char)(ch - 32);
+  }
   c.cseed = r.next() & 0xffffffffULL;
   int a = r.range(0, 99);
   c.natoms = a < 10 ? 0 : a < 80 ? r.range(1, 8) : a < 95 ? r.range(9, 40) : r.range(41, 64);
@@ -676,7 +686,15 @@ void gen_history(Rng& r, const GenCfg& cfg, std::vector<Op>& out, int& next_id, 
         o.h[0] = r.chance(1, 4) ? -2 : st.pick(r, HT_ARRAY, true);
         if (o.h[0] == -1) o.h[0] = -2;
         int q = r.range(0, 9);
-        if (q < 5 && !st.pool.empty()) o.s = st.pool[r.below(st.pool.size())];
+        if (q < 5 && !st.pool.empty()) {
+          o.s = st.pool[r.below(st.pool.size())];
+          if (r.chance(1, 6)) {
+            static const int cut[] = {8, 15, 16, 19, 20, 21, 31, 32, 33};
+            std::string base = o.s + "_sample_of_a_long_crystal_name_";
+            base.resize((size_t)cut[r.below(9)], '_');
+            o.s = r.chance(1, 3) ? base : base + (char)('0' + r.range(0, 3));
+          }
+        }
         else if (q < 8) o.s = pick_builtin_name(r);
         else if (q < 9) o.s = maybe_long(r, gen_name(r, 30));
         else o.snull = true;
